@@ -475,6 +475,21 @@ def mon_C10(tr):
         n = min(len(got), len(want))
         pos = next((i for i in range(n) if repr(got[i]) != repr(want[i])), n)
         out.append(V("logger-stream-equals-events", 0, first_difference=pos, delivered=len(got), events=len(want)))
+    # every record carries the time of the clock at which its event happened (a cancel is recorded at the step it is accepted, whatever
+    # the Cancel object carried before; a fill and an expiry at the step of the round / of the clock move)
+    clock = -1
+    for i, (op, ob) in enumerate(zip(ops, obs)):
+        if not isinstance(ob, list):
+            continue
+        if op[0] == "tick":
+            clock += 1
+        recs = [ob] if op[0] in ("cancel",) else (ob if op[0] in ("exec", "tick") else [])
+        for r in recs:
+            if not isinstance(r, list) or not r:
+                continue
+            when = {2: 1, 3: 2, 4: 1}.get(r[0])
+            if when is not None and r[when] != clock and len(out) < 5:
+                out.append(V("record-carries-the-time-of-its-event", i, kind={2: "cancel", 3: "fill", 4: "expiry"}[r[0]], recorded_time=r[when], clock=clock))
     # independent of what the clock step returned: who left the book at the step?
     for i, (op, ob) in enumerate(zip(ops, obs)):
         if op[0] != "tick" or not isinstance(ob, list):
